@@ -157,4 +157,11 @@ CLAIMS['C15'] = {
   'text': "Decides for ?gsisx (all valuations, four types): equilibration / scaling / transpose glue as for the expert driver; MC64 dispatch, fall-back, exponentiation of both duals, scaling by both, equed = B; A's row indices restored by the inverse relabel on every return after the relabel (size-query exit: see known finding under C08); perm_r folded with the MC64 permutation. For the ILU producers: every append capacity-checked (incl. the zero-column fill, repaired by a fix: commit), aliases re-read; count / fix-up / wrap order and reuse-branch refresh of ?gsitrf; no leak in the ILU routines; loops up to relax_end[] inclusive. Breakdown-freedom and exactness with dropping off are statements about values and are not decided.",
   'note': 'Known finding: {c,z}gsisx with row storage and Trans = CONJ (as {c,z}gssvx). The out-of-space exits of ?gsitrf are recorded under C19.',
 }
+CLAIMS['C17'] = {
+  'level': 'other',
+  'technique': 'static analysis: event oracle with must-pass-through on the restore loops around the 1-based MC64 call (R3), sound may-write set of MC64 (R10), ownership dataflow (R4), sibling agreement (R9)',
+  'design_ref': 'DESIGN.md 5 C17',
+  'text': "Decides the clauses that are shapes of the code: the caller's index arrays are shifted to 1-based and back with the right extents on every path to a return, perm is returned 0-based, the duals are handed back for job 5, the MC64 status is the return value on every exit (and the ILU driver tests it, C15), and MC64 cannot write the caller's pattern or values. That the permutation is a maximum-product matching with unit scaling is a statement about the algorithm's values and is not decided (a seeded change inside mc64wd_ is not detected).",
+  'note': 'No-alias contract; may-write set of the f2c-derived MC64 code is computed from its parsed source.',
+}
 NOT_APPLICABLE = {}
